@@ -23,6 +23,11 @@ type Subscription struct {
 	// etype is the type of the events, the return type of the subscription
 	// field.
 	etype Type
+
+	// vars are the values of the variables of the subscription request, a
+	// copy. The selection set of the subscription can use variables and it
+	// is applied to events long after the request has returned.
+	vars map[string]interface{}
 }
 
 // NewSubscription creates a new subscription. It should be called in a
